@@ -274,6 +274,14 @@ macro_rules! sched_case {
                 writeln!($out, "{}", json!({"ev": "end", "final": state, "seq": seq_state, "log": log, "seqlog": seq_log})).unwrap();
                 options
             };
+            // VERIF_SCHED_FIRST: the real pools first (1 thread first), in a process that has not run
+            // a schedule yet: nothing the library remembers from one run may change a later one
+            let rayon_first = std::env::var("VERIF_SCHED_FIRST").is_ok();
+            if rayon_first {
+                for &pool in $pools.iter() {
+                    run_one("rayon", pool, Vec::new());
+                }
+            }
             // every admissible order
             let mut choices: Vec<u32> = Vec::new();
             let mut n = 0usize;
@@ -285,8 +293,10 @@ macro_rules! sched_case {
                     _ => break,
                 }
             }
-            for &pool in $pools.iter() {
-                run_one("rayon", pool, Vec::new());
+            if !rayon_first {
+                for &pool in $pools.iter() {
+                    run_one("rayon", pool, Vec::new());
+                }
             }
         }
     }};
